@@ -85,6 +85,9 @@ theorem mapM_nip {α β} {f : α → M β} (hf : ∀ a, NIP b (f a)) : ∀ l : L
 @[nip] theorem setOption_nip (n : Str) (v : PyVal) : NIP b (setOption n v) := by
   cases b <;> (unfold setOption; nip_go)
 
+@[nip] theorem setOptionInDocument_nip (n : Str) (v : PyVal) : NIP b (setOptionInDocument n v) := by
+  cases b <;> (unfold setOptionInDocument; nip_go)
+
 section
 variable (rec : Rec) (env : Env) (hs : ∀ x, NIP b (rec.spans x)) (hd : ∀ d x, NIP b (rec.document d x))
 include hs
@@ -227,7 +230,7 @@ theorem documentLoop_nip : ∀ fuel r w, NIP b (documentLoop rec env fuel r w) :
   | zero => intro r w; cases b <;> (unfold documentLoop; nip_go)
   | succ n ih => intro r w; cases b <;> (unfold documentLoop; nip_go)
 
-theorem documentRender_nip (fuel : Nat) (src : Str) (d : Nat) : NIP b (documentRender rec env fuel src d) := by
+theorem documentRender_nip (fuel : Nat) (src : Str) (d : Depth) : NIP b (documentRender rec env fuel src d) := by
   have h := documentLoop_nip rec env hs hd
   cases b <;> (unfold documentRender; nip_go)
 
